@@ -358,8 +358,8 @@ def one_config(runno, opts, T, timed):
     pl.node.node_id = T["local"]
     rec = {"ev": "cfg", "run": runno, "opts": {k: (bn(v) if k not in ("nohints", "xpay") else v) for k, v in opts.items()},
            "raw": {k: str(v) for k, v in opts.items()}, "started": False, "feebytes": [], "hint": "na", "mppclass": "na",
-           "pay": {"retry": [], "delay_far": [], "delay_near": [], "label": False, "risk": False},
-           "near_gap": [], "near_expected": []}
+           "pay": {"retry": [], "delay_far": [], "delay_near": [], "delay_mid": [], "label": False, "risk": False},
+           "near_gap": [], "near_expected": [], "mid_gap": [], "mid_expected": [], "mid_probed": False}
     try:
         st = pl.handshake()
         if st == "hung":
@@ -408,6 +408,13 @@ def one_config(runno, opts, T, timed):
             rec["pay"]["delay_near"] = digits(p2.get("maxdelay", 0))
         else:
             rec["pay"]["delay_near"] = [-1]
+        # c2. expiry just above the policy delta: the safety delta still comes off (expiry - height - safety delta is
+        #     below the policy delta there)
+        if 1 <= sd <= pd + 1:
+            p3 = funded("c2", 6, height + pd + 1)
+            rec["mid_probed"] = True
+            rec["mid_gap"] = digits(pd + 1); rec["mid_expected"] = digits(pd + 1 - sd)
+            rec["pay"]["delay_mid"] = digits(p3.get("maxdelay", 0)) if p3 else [-1]
         # d. invoice routed through ourselves
         quiesce()
         n0 = len([c for c in pl.node.calls if c[0] == "pay"])
